@@ -12,6 +12,7 @@ import (
 	"fmt"
 	"io"
 	"log/slog"
+	"math"
 	"net/http"
 	"net/http/httptest"
 	"net/url"
@@ -1075,6 +1076,26 @@ func lineA(id string, k acaseT, o obsT, answers []string, st *hx.Stats) string {
 		l.Bool(false)
 	}
 	l.Strs(answers)
+	// strconv.ParseFloat on every raw parameter value of the header (parameter of the model of Accepts)
+	var raws []string
+	seenRaw := map[string]bool{}
+	if acc := k.acceptSeen(); acc != nil {
+		for _, v := range rawValues(*acc) {
+			if !seenRaw[v] {
+				seenRaw[v] = true
+				raws = append(raws, v)
+			}
+		}
+	}
+	l.Nat(len(raws))
+	for _, v := range raws {
+		l.Str(v)
+		if m, ok := pfMicro(v); ok {
+			l.Bool(true).Nat(m)
+		} else {
+			l.Bool(false)
+		}
+	}
 	if k.PreCT != nil {
 		l.Bool(true).Str(*k.PreCT)
 	} else {
@@ -1134,6 +1155,39 @@ func lineA(id string, k acaseT, o obsT, answers []string, st *hx.Stats) string {
 		}
 	}
 	return l.String()
+}
+
+// rawValues over-approximates the set of strings the Accept parser may hand to strconv.ParseFloat.
+func rawValues(h string) []string {
+	var out []string
+	for _, part := range strings.Split(h, ",") {
+		for _, p := range strings.Split(part, ";") {
+			i := strings.IndexByte(p, '=')
+			if i < 0 {
+				continue
+			}
+			v := strings.Trim(p[i+1:], " \t")
+			out = append(out, v)
+			if len(v) >= 2 && v[0] == '"' && v[len(v)-1] == '"' {
+				out = append(out, v[1:len(v)-1])
+			}
+		}
+	}
+	return out
+}
+
+// pfMicro: the ParseFloat fallback's verdict on raw (quality in millionths, accepted); the generator only uses
+// values that are exact in millionths
+func pfMicro(raw string) (int, bool) {
+	q, err := strconv.ParseFloat(raw, 64)
+	if err != nil || !(q >= 0 && q <= 1) {
+		return 0, false
+	}
+	m := math.Round(q * 1e6)
+	if m/1e6 != q {
+		return 0, false
+	}
+	return int(m), true
 }
 
 func emitM(id string, k mcaseT, st *hx.Stats) string {
